@@ -60,6 +60,12 @@ pub struct MultiCase {
     /// `DatasetBase::map_targets` (as in the crate's documentation) instead of being built with the names
     #[serde(default)]
     pub naming_via_map_targets: bool,
+    /// MIS-SHAPED start: rows / columns more (+1) or fewer (-1) than the configured model needs; oracle:
+    /// Err(InitialParameter*Mismatch), or Ok and then every oracle holds for the configured model
+    #[serde(default)]
+    pub init_rows_delta: i8,
+    #[serde(default)]
+    pub init_cols_delta: i8,
 }
 
 const USIZE_NAMES: [[usize; 4]; 2] = [[0, 1, 2, 3], [9, 4, 6, 2]];
@@ -240,7 +246,10 @@ fn $name<C: Ord + Clone + Default + std::fmt::Debug + 'static>(case: &MultiCase,
                     2 => p.max_iterations(if decoy { 3 } else { case.max_iter }),
                     3 => p.gradient_tolerance(if decoy { 0.5 } else { case.gtol as $F }),
                     _ => match &case.init {
-                        Some(init) => p.initial_params(if decoy { Array2::from_elem((pz, k), 1.0) } else { Array2::from_shape_fn((pz, k), |(i, j)| init[i][j] as $F) }),
+                        Some(init) => p.initial_params(if decoy { Array2::from_elem((pz, k), 1.0) } else { {
+                            let (r, c) = ((pz as i64 + case.init_rows_delta as i64) as usize, (k as i64 + case.init_cols_delta as i64) as usize);
+                            Array2::from_shape_fn((r, c), |(i, j)| if i < pz && j < k { init[i][j] as $F } else { 0.05 })
+                        } }),
                         None => p,
                     },
                 };
@@ -309,6 +318,12 @@ fn $name<C: Ord + Clone + Default + std::fmt::Debug + 'static>(case: &MultiCase,
     };
     let mut model = match do_fit(&params) {
         Ok(Ok(m)) => m,
+        Ok(Err(linfa_logistic::error::Error::InitialParameterFeaturesMismatch { .. })) | Ok(Err(linfa_logistic::error::Error::InitialParameterClassesMismatch { .. }))
+            if case.init_rows_delta != 0 || case.init_cols_delta != 0 =>
+        {
+            out.tag("mis_shaped_initial_params_rejected");
+            return out;
+        }
         Ok(Err(e)) => {
             let sig = "multi_logistic.fit.unexpected_error";
             viols.push(Violation::new(sig, format!("fit on an in-domain {}-class dataset returned Err({}){}", k, e, clamp_note), cj()));
